@@ -386,7 +386,8 @@ class Machine:
                 mp[777] = 3  # a key that occurs nowhere
             mapping = _pairs(mp)
         del listed
-        return {"op": "reindexed", "slot": i, "mapping": mapping, "copy": rng.random() < 0.6,
+        return {"op": "reindexed", "slot": i, "mapping": mapping, "mapping_kind": rng.choice(model.MAPPING_KINDS),
+                "copy": rng.random() < 0.6,
                 "shift": rng.random() < 0.75, "assume_unique": rng.random() < 0.3, "dst": self._dst(rng)}
 
     def gen_collapsed(self, rng, palette):
@@ -776,8 +777,10 @@ class Machine:
             mapping = None
             self.stats.count("probe_reindexed_default_mapping")
         else:
-            mapping = dict(map(tuple, op["mapping"]))
-            eff = mapping
+            mapping = model.make_mapping(op["mapping"], op.get("mapping_kind", "dict"))
+            eff = dict(mapping)
+            if op.get("mapping_kind", "dict") != "dict":
+                self.stats.count("probe_mapping_kind_" + op["mapping_kind"])
         msnap = model.snapshot(mapping) if mapping is not None else None
         out = self.call("reindexed", s.idx.reindexed, mapping, copy=op["copy"], shift=op["shift"],
                         assume_unique=op["assume_unique"])
